@@ -44,11 +44,23 @@ fn lookup<T>(ax: &Array1<T>, q: T) -> (Res, Option<usize>)
 where
     T: std::fmt::Debug + PartialOrd + num_traits::Num + num_traits::NumCast + Copy,
 {
+    // the same knots stored in reverse memory order (negative stride) and as every-2nd element of a larger
+    // array must give the same answer
+    let rev = crate::scen::relayout(ax.clone(), 1);
+    let wide = Array1::from(ax.iter().flat_map(|&v| [v, v]).collect::<Vec<T>>());
+    let strided = wide.slice(ndarray::s![..;2]);
+    let r_rev = catch_unwind(AssertUnwindSafe(|| rev.get_lower_index(q)));
+    let r_str = catch_unwind(AssertUnwindSafe(|| strided.get_lower_index(q)));
     ndarray_interp::verif::reset();
     let r = catch_unwind(AssertUnwindSafe(|| ax.get_lower_index(q)));
     let g = ndarray_interp::verif::last_guess();
     match r {
-        Ok(i) => (Res::Idx(i), g),
+        Ok(i) => {
+            if r_rev.as_ref().ok() != Some(&i) || r_str.as_ref().ok() != Some(&i) {
+                return (Res::Panic(format!("get_lower_index depends on the storage of the axis: owned {} / negative-stride {:?} / strided view {:?}", i, r_rev.ok(), r_str.ok())), g);
+            }
+            (Res::Idx(i), g)
+        }
         Err(p) => (Res::Panic(panic_msg(p)), g),
     }
 }
